@@ -62,6 +62,7 @@ Fixpoint dec_seq (kinds : list sx) (bs : bytes) (acc : list sx) : sx :=
 Definition op_cbor_dec (args : list sx) : sx :=
   match args with
   | [SL kinds; SB input] => dec_seq kinds input []
+  | [SL kinds; SB input; _] => dec_seq kinds input []      (* reader without Len(): same answers *)
   | _ => bad_args
   end.
 
@@ -89,9 +90,17 @@ Definition op_cbor_dec_segments (args : list sx) : sx :=
                     | SL [SL kinds; SB seg] => SL (dec_seq_cont kinds seg [])
                     | _ => bad_args end) args).
 
+(* cbor_map_twice entries... : the same entry objects handed to EncodeMap twice: same bytes twice *)
+Definition op_cbor_map_twice (args : list sx) : sx :=
+  match item_of_sx 64 (SL [sym "m"; SL args]) with
+  | Some it => let r := sx_bytes_R (run_items [it]) in SL [r; r]
+  | None => bad_args
+  end.
+
 Definition dispatch_cbor (op : bytes) (args : list sx) : option sx :=
   if bytes_eqb op (s2b "cbor_prog") then Some (op_cbor_prog args)
   else if bytes_eqb op (s2b "cbor_dec") then Some (op_cbor_dec args)
   else if bytes_eqb op (s2b "cbor_text_batch") then Some (op_cbor_text_batch args)
   else if bytes_eqb op (s2b "cbor_dec_segments") then Some (op_cbor_dec_segments args)
+  else if bytes_eqb op (s2b "cbor_map_twice") then Some (op_cbor_map_twice args)
   else None.
